@@ -18,7 +18,7 @@ RULE = ('history = pool of generated expression ASTs (depth <= 5: traced functio
         '1024) predicting values, identity of cached results, invocation counts, cache_info() and LazyObjectMissingError; second '
         'scenario: LruCache state machine vs the same model for maxsize 1..5; non-trivial = depth >= 3 with a lazy argument, or a '
         'history that exceeds a bound and re-touches an old key; distinct = distinct canonical case JSON'
-        '; also: keyword order, same-object cached calls with array arguments, bytes arguments, floods of 255..300 held objects')
+        '; also: keyword order, same-object cached calls with array arguments, bytes arguments, floods of 255..300 held objects, arguments that raise StopIteration')
 ASSUMPTIONS = [
     'all callables live in vlib/targets.py (importable, so cloudpickle pickles them by reference) and count their invocations',
     'expression equality (cache key) is the library\'s: same callable, same arguments and keyword arguments, recursively - the '
@@ -214,6 +214,8 @@ def run_history(case):
         want, want_exc = None, 'missing'
       except (ValueError, KeyError) as ex:
         want, want_exc = None, (type(ex).__name__, str(ex))
+      except StopIteration:
+        want, want_exc = None, 'stop-iteration'
       delta = model.calls - before
       targets.CALLS.clear()
       targets.CALLS.update(saved)
@@ -227,6 +229,13 @@ def run_history(case):
         got, got_exc = None, 'missing'
       except (ValueError, KeyError) as ex:
         got, got_exc = None, (type(ex).__name__, str(ex))
+      except StopIteration:
+        got, got_exc = None, 'stop-iteration'
+      except RuntimeError as ex:
+        # a StopIteration leaving a generator surfaces as RuntimeError (PEP 479): still an error, as in the eager evaluation
+        if not isinstance(ex.__cause__ or ex.__context__, StopIteration):
+          raise crash(ex, w) from ex
+        got, got_exc = None, 'stop-iteration'
       except Exception as ex:  # pylint: disable=broad-exception-caught
         raise crash(ex, w) from ex
       check(got_exc == want_exc, 'exception-differs-from-eager', f'{w}: lazy raised {got_exc!r}, eager model {want_exc!r}')
@@ -356,7 +365,7 @@ def _falsy(depth):
 
 def _raising():
   return st.builds(lambda m, f: {'k': 'call', 'fn': f, 'args': [{'c': m}]}, st.sampled_from(['boom', 'x y', '']),
-                   st.sampled_from(['raise_value_error', 'raise_value_error', 'raise_key_error']))
+                   st.sampled_from(['raise_value_error', 'raise_value_error', 'raise_key_error', 'raise_stop_iteration']))
 
 
 def strat_history(tier):
@@ -371,7 +380,7 @@ def strat_history(tier):
     bytes_arg = st.builds(lambda b, c: {'k': 'call', 'fn': 'counted_len', 'args': [{'b': b}], 'cache': c},
                           st.sampled_from(['abc', 'N.', '', '\x80\x04N.', 'I1\n.']), st.booleans())
     top = st.one_of(_int(depth), _int(depth), _list(depth), _inst(depth), _falsy(depth), kworder, bytes_arg,
-                    st.builds(lambda a, r: {'k': 'call', 'fn': 'counted_add', 'args': [a, r]}, _int(1), _raising()))
+                    st.builds(lambda a, r, first: {'k': 'call', 'fn': 'counted_add', 'args': [r, a] if first else [a, r]}, _int(1), _raising(), st.booleans()))
     exprs = draw(st.lists(top, min_size=1, max_size=4))
     op = st.one_of(st.tuples(st.just('make'), st.integers(0, 3)).map(list), st.tuples(st.just('make'), st.integers(0, 3)).map(list),
                    st.tuples(st.just('make_pickled'), st.integers(0, 3)).map(list), st.just(['clear_cache']),
